@@ -501,6 +501,44 @@ func registerEnvIntrinsics() {
 		}
 	}
 
+	// unsafe.Pointer words (atomic.Pointer[T]): the cell holds whatever pointer value was stored
+	{
+		ptr := func(fr *frame, in *Interp, v Value) *Value {
+			p, _ := v.(*Value)
+			if p == nil {
+				fr.tpanic("nil-deref", in.runtimeError("invalid memory address or nil pointer dereference"))
+			}
+			return p
+		}
+		I["sync/atomic.LoadPointer"] = func(in *Interp, fr *frame, args []Value) (Value, bool) {
+			in.maybePreempt("atomic")
+			return *ptr(fr, in, args[0]), true
+		}
+		I["sync/atomic.StorePointer"] = func(in *Interp, fr *frame, args []Value) (Value, bool) {
+			in.maybePreempt("atomic")
+			*ptr(fr, in, args[0]) = args[1]
+			return nil, true
+		}
+		I["sync/atomic.SwapPointer"] = func(in *Interp, fr *frame, args []Value) (Value, bool) {
+			in.maybePreempt("atomic")
+			p := ptr(fr, in, args[0])
+			old := *p
+			*p = args[1]
+			return old, true
+		}
+		I["sync/atomic.CompareAndSwapPointer"] = func(in *Interp, fr *frame, args []Value) (Value, bool) {
+			in.maybePreempt("atomic")
+			p := ptr(fr, in, args[0])
+			cur, _ := (*p).(*Value)
+			old, _ := args[1].(*Value)
+			if cur == old {
+				*p = args[2]
+				return true, true
+			}
+			return false, true
+		}
+	}
+
 	// ---- context ----
 	newCtx := func(in *Interp, parent Value) *Obj {
 		o := in.newObj("ctx")
@@ -963,6 +1001,24 @@ func registerEnvIntrinsics() {
 		}
 		return SymBytes{s: Str{p: []piece{{k: pkAtom, t: seq, n: ln}}}}, true
 	}
+	// AppendChild copies the child's encoding into the parent: remember the child's
+	// buffer (a later write to it does not reach the parent's bytes); the body itself is interpreted
+	I["(*"+berPath+".Packet).AppendChild"] = func(in *Interp, fr *frame, args []Value) (Value, bool) {
+		if cp, _ := args[1].(*Value); cp != nil {
+			if _, sym := in.symNode[cp]; !sym {
+				if cs, ok := (*cp).(Struct); ok {
+					st := in.P.Ber.Type("Packet").Type().Underlying().(*types.Struct)
+					if dp, _ := cs[structFieldIndex(st, "Data")].(*Value); dp != nil {
+						if in.appended == nil {
+							in.appended = map[*Value]bool{}
+						}
+						in.appended[dp] = true
+					}
+				}
+			}
+		}
+		return nil, false
+	}
 	I["github.com/go-ldap/ldap/v3.DecompileFilter"] = func(in *Interp, fr *frame, args []Value) (Value, bool) {
 		p, _ := args[0].(*Value)
 		if p == nil {
@@ -1249,7 +1305,23 @@ func (in *Interp) objMethod(fr *frame, o *Obj, name string, args []Value) Value 
 			}
 			return Iface{}
 		case "Accept":
+			calledDuring := false
 			for {
+				if inner.b && calledDuring && in.env.n < len(in.env.accepts) && in.env.accepts[in.env.n].kind == "conn" {
+					// the listener was closed while this Accept call was in progress: the kernel may
+					// have completed the connection just before (Accept returns it) or not
+					if r := in.env.F["acceptRace"]; r != nil && in.branch(r, "connection accepted just before the listener was closed") {
+						it := in.env.accepts[in.env.n]
+						in.env.n++
+						c := it.err
+						in.emit("accept", in.connName(c), "late")
+						if o != inner {
+							cell := in.newTLSConn(c, o.F["cfg"])
+							return Tuple{Iface{T: types.NewPointer(in.namedType("crypto/tls", "Conn")), V: cell}, Iface{}}
+						}
+						return Tuple{c, Iface{}}
+					}
+				}
 				if inner.b {
 					in.emit("accept.closed")
 					return Tuple{Iface{}, in.newError(CStr("accept tcp: use of closed network connection"), nil)}
@@ -1276,6 +1348,7 @@ func (in *Interp) objMethod(fr *frame, o *Obj, name string, args []Value) Value 
 					in.emit("accept.err")
 					return Tuple{Iface{}, it.err}
 				case "call":
+					calledDuring = true
 					in.call(fr, it.fn, nil, nil, false)
 				}
 			}
